@@ -56,6 +56,13 @@ Special == {
     <<F("a:1", 1, 65535, T_Coil, 0, 0, 0, 0, "chi"), F("a:1", 1, 0, T_Coil, 0, 0, 0, 0, "clo")>>,
     <<F("a:1", 1, 10, T_Uint16, 0, 0, 0, 0, "m1"), F("a:1", 1, 10, T_Coil, 0, 0, 0, 0, "m2"),
       F("a:1", 1, 11, T_Uint32, 0, 0, 0, 0, "m3"), F("a:1", 1, 12, T_Coil, 0, 0, 0, 0, "m4")>>,       \* mixed kinds
+    \* different targets whose (server address, unit id) pairs read alike when written one after the other
+    <<F("plc:50", 21, 10, T_Uint16, 0, 0, 0, 0, "t1"), F("plc:502", 1, 11, T_Uint16, 0, 0, 0, 0, "t2"),
+      F("plc:50", 21, 10, T_Coil, 0, 0, 0, 0, "t3"), F("plc:502", 1, 11, T_Coil, 0, 0, 0, 0, "t4")>>,
+    <<F("a", 11, 10, T_Uint32, 0, 0, 0, 0, "u1"), F("a1", 1, 10, T_Uint16, 0, 0, 0, 0, "u2"), F("a_1", 1, 12, T_Uint16, 0, 0, 0, 0, "u3"),
+      F("a", 1, 13, T_Uint16, 0, 0, 0, 0, "u4"), F("a", 11, 5, T_Coil, 0, 0, 0, 0, "u5"), F("a1", 1, 6, T_Coil, 0, 0, 0, 0, "u6")>>,
+    <<F("h:1_2", 3, 1, T_Uint16, 0, 0, 0, 0, "v1"), F("h:1", 23, 2, T_Uint16, 0, 0, 0, 0, "v2"), F("h:12", 3, 3, T_Uint16, 0, 0, 0, 0, "v3"),
+      F("h:1", 2, 4, T_Uint16, 0, 0, 0, 0, "v4")>>,
     <<>> }
 
 MaxK == IF Thorough THEN 4 ELSE 3
